@@ -259,7 +259,6 @@ func (g *gen) addLeafOC(sc *scope, o leafOpts, elems []*ocElem) (string, *typ) {
 	g.budget--
 	name := g.leafName(sc, o)
 	sc.take(name)
-	st := sc.st.add("leaf", name)
 	var t *typ
 	if len(g.targets) > 0 && g.chance(14, "oc-leafref") {
 		var cands []target
@@ -279,14 +278,22 @@ func (g *gen) addLeafOC(sc *scope, o leafOpts, elems []*ocElem) (string, *typ) {
 			g.feat("leafref-absolute")
 		}
 	}
+	// a leafref may also sit in a leaf-list (the config and the state copy of the grouping then both
+	// hold a leaf-list whose path runs through a config container)
+	kind := "leaf"
+	if t != nil && !o.key && g.chance(35, "oc-leafref-leaflist") {
+		kind = "leaf-list"
+		g.feat("leafref-leaf-list")
+	}
+	st := sc.st.add(kind, name)
 	if t == nil {
 		t = g.drawType(typeCtx{m: sc.m, sc: sc, key: o.key, noRef: true}, "oc-leaf-type")
 	}
 	t.render(st, sc.m)
-	if !o.key && sc.config && g.chance(22, "oc-default") {
+	if kind == "leaf" && !o.key && sc.config && g.chance(22, "oc-default") {
 		g.addDefault(st, t, sc.m)
 	}
-	g.feat("leaf")
+	g.feat(kind)
 	return name, t
 }
 
